@@ -51,13 +51,24 @@ def finish_data(data, se):
     return data
 
 
-def allowed_paths():
-    return {printable(OUT), printable(TMP)}
+def allowed_paths(ctx, mode, source, se):
+    """the output path plus the targets of the temp directives the run may act on: in clean mode every temp directive of the
+    source, otherwise those the reference semantics executes before it stops"""
+    allowed = {printable(OUT)}
+    if mode == 'Clean':
+        args = specpp.temp_targets_all(ctx, source)
+    else:
+        res = specpp.process(ctx, source, _ReplaySpecEnv(se), True)
+        args = [a for a, _ in res.temps]
+    for a in args:
+        if all(isinstance(b, int) for b in a):
+            allowed.add(printable(WORK + b'/' + bytes(a)))
+    return allowed
 
 
-def check_log(ctx, env, mode, data, what_prefix=''):
+def check_log(ctx, env, mode, data, source=None, se=None, what_prefix=''):
     """C10 monitor: every mutating FS call targets the output path or a temp target"""
-    allowed = allowed_paths()
+    allowed = allowed_paths(ctx, mode, source, se) if source is not None else {printable(OUT), printable(TMP)}
     for op, path in env.log:
         if path not in allowed:
             violation(ctx, what_prefix + 'txtpp %s a path that is neither its output nor a temp target: %s' % (op, path), dict(data, mode=mode, log=list(env.log)))
@@ -75,7 +86,7 @@ def h_verify(m, ctx, nlines, menu_name, fixed=None, pre_out_len=None, trailing=T
     data = finish_data(dict(data, mode='Verify', trailing=trailing), se)
     spec = specpp.process(ctx, source, se, trailing)
     ok_ = (r.idx == 0)
-    check_log(ctx, env, 'Verify', data)
+    check_log(ctx, env, 'Verify', data, source, se)
     after = env.read_file(OUT)
     if (after is None) != (pre_out is None):
         violation(ctx, 'verify created or deleted the output file', data)
@@ -130,7 +141,7 @@ def h_clean(m, ctx, nlines, menu_name, fixed=None, history='build-clean', le_cho
                 violation(ctx, 'clean failed (it must succeed even when the source has directive errors)', d)
             if se.second_cmds or (history == 'clean' and se.cmd_results):
                 violation(ctx, 'clean executed a run command', d)
-            check_log(ctx, env, 'Clean', d)
+            check_log(ctx, env, 'Clean', d, source, se)
             if build_ok is not False:
                 # after a successful build (or no build): every generated file is gone
                 if env.read_file(OUT) is not None:
@@ -138,7 +149,10 @@ def h_clean(m, ctx, nlines, menu_name, fixed=None, history='build-clean', le_cho
                 if env.read_file(TMP) is not None:
                     # a temp directive that was reached by the build
                     violation(ctx, 'clean left a temp file behind', d)
+            allowed_c = allowed_paths(ctx, 'Clean', source, se)
             for p, c in DECOYS + [(SRC, None), (WORK + b'/f', None)]:
+                if printable(p) in allowed_c:
+                    continue
                 cur = env.read_file(p)
                 if cur is None:
                     violation(ctx, 'clean deleted %s' % p.decode(), d)
@@ -212,8 +226,11 @@ def h_paths(m, ctx, nlines, menu_name, mode, fixed=None, faults=0, pre_out_len=N
     source, desc, se, pre_out, pre_temp, data = world(m, ctx, nlines, menu_name, fixed, pre_out_len, pre_temp_len, le_choices=le_choices)
     it, env, r = run_mode(m, ctx, se, source, mode, pre_out, pre_temp, decoys=True, faults=faults)
     data = finish_data(dict(data, mode=mode, faults=list(env.faults)), se)
-    check_log(ctx, env, mode, data)
+    check_log(ctx, env, mode, data, source, se)
+    allowed = allowed_paths(ctx, mode, source, se)
     for p, c in DECOYS:
+        if printable(p) in allowed:
+            continue
         cur = env.read_file(p)
         if cur is None or bytes(cur) != c:
             violation(ctx, 'a file that is neither output nor temp target was changed: %s' % p.decode(), data)
@@ -225,8 +242,14 @@ def h_paths(m, ctx, nlines, menu_name, mode, fixed=None, faults=0, pre_out_len=N
 
 # ----------------------------------------------------------------------------- C04(b) no false success under I/O faults
 
-def h_faults(m, ctx, nlines, menu_name, mode, fixed=None, faults=1, pre_uptodate=False, le_choices=(b'\n',)):
-    source, desc, se, _, _, data = world(m, ctx, nlines, menu_name, fixed, None, None, le_choices=le_choices)
+def h_faults(m, ctx, nlines, menu_name, mode, fixed=None, faults=1, pre_uptodate=False, le_choices=(b'\n',), big_include=None,
+             trailing=True):
+    source, desc, se, _, _, data = world(m, ctx, nlines, menu_name, fixed, None, None, le_choices=le_choices,
+                                         final_newline=True if big_include else None)
+    if big_include:
+        # an included file larger than the writer's buffer: its chunk reaches the file in one direct write
+        se.inc_content = tuple([120] * big_include) + (10,)
+        data['inc'] = list(se.inc_content)
     pre_out = pre_temp = None
     if mode == 'Verify' or pre_uptodate:
         # start from a correct tree (so that verify would pass without faults)
@@ -235,9 +258,9 @@ def h_faults(m, ctx, nlines, menu_name, mode, fixed=None, faults=1, pre_uptodate
             return
         pre_out, pre_temp = env0.read_file(OUT), env0.read_file(TMP)
         se.replaying = 0
-    it, env, r = run_mode(m, ctx, se, source, mode, pre_out, pre_temp, faults=faults)
-    data = finish_data(dict(data, mode=mode, faults=list(env.faults)), se)
-    spec = specpp.process(ctx, source, _ReplaySpecEnv(se), True)
+    it, env, r = run_mode(m, ctx, se, source, mode, pre_out, pre_temp, trailing=trailing, faults=faults)
+    data = finish_data(dict(data, mode=mode, faults=list(env.faults), trailing=trailing), se)
+    spec = specpp.process(ctx, source, _ReplaySpecEnv(se), trailing)
     ok_ = (r.idx == 0)
     if env.faults:
         ctx.cover('fault_injected')
@@ -352,7 +375,7 @@ def h_deps(m, ctx, mode, shape, kind='include', before='text', after='run', stal
         pre_out = (tuple(lines[0]) + (10,) if before == 'text' else ()) + tuple(b'zzzz')
     env = se.install(it, source, extra_files=extra, pre_out=pre_out)
     r = run_preprocess(m, it, mode, True, True)
-    data = {'op': 'deps', 'mode': mode, 'source_shown': show_bytes(source), 'dep': dep_src, 'kind': kind}
+    data = {'op': 'deps', 'mode': mode, 'source_shown': show_bytes(source), 'dep': dep_src, 'kind': kind, 'before': before, 'after': after}
     if r.idx != 0:
         violation(ctx, 'first pass failed on a source whose dependency has a .txtpp source', data)
     res = r.f[0]
@@ -413,7 +436,10 @@ def replay_deps(v):
         shutil.rmtree(root, ignore_errors=True)
         return (rc == 0 or rc == 'HANG' or page != 'head\npart\ntail\n'), {'rc': rc, 'page': page}
     open(os.path.join(work, dep_src), 'w').write('fresh dep\n')
-    open(os.path.join(work, 'a.txt.txtpp'), 'w').write('top\n-TXTPP#%s %s\nend\n' % (d['kind'], dep_out))
+    second = {'include2': '-TXTPP#include e\n', 'after2': '-TXTPP#after e\n'}.get(d.get('after'), '')
+    if second:
+        open(os.path.join(work, 'e.txtpp'), 'w').write('fresh e\n')
+    open(os.path.join(work, 'a.txt.txtpp'), 'w').write('top\n-TXTPP#%s %s\n%send\n' % (d['kind'], dep_out, second))
     cli = ppreplay.cli_path()
     mode = d['mode']
     # build everything, then make the dependency's output stale: verify of the top file alone must notice
@@ -425,14 +451,17 @@ def replay_deps(v):
         bad = True
     else:
         open(os.path.join(work, dep_src), 'w').write('edited dep\n')
+        if second:
+            open(os.path.join(work, 'e.txtpp'), 'w').write('edited e\n')
         args = {'Verify': ['verify', '-q'], 'Build': ['-q'], 'InMemoryBuild': ['-N', '-q']}[mode]
         r1 = subprocess.run([cli] + args + ['a.txt.txtpp'], cwd=work, capture_output=True)
         now = open(os.path.join(work, dep_out)).read()
-        detail.update({'second_run_rc': r1.returncode, 'dependency_output_after_second_run': now})
+        now_e = open(os.path.join(work, 'e')).read() if second and os.path.exists(os.path.join(work, 'e')) else None
+        detail.update({'second_run_rc': r1.returncode, 'dependency_output_after_second_run': now, 'second_dependency_output': now_e})
         if mode == 'Verify':
             bad = (r1.returncode == 0)           # the dependency's output is stale: verify must fail
         else:
-            bad = (r1.returncode != 0 or now != 'edited dep\n')
+            bad = (r1.returncode != 0 or now != 'edited dep\n' or (second != '' and now_e != 'edited e\n'))
     shutil.rmtree(root, ignore_errors=True)
     return bad, detail
 
